@@ -2,12 +2,14 @@
 // Unit ann_text, L2: what `op_ann_text` (prelude/anntext_spec.rs) means for property C03 "return type text".
 // No parser is modelled, so "the source text of the annotation" enters in two ways only:
 //   (a) a CONSTANT is printed as the slice of `content` its range denotes (exactly, byte for byte);
-//   (b) the TOKEN sequence of an annotation, defined from the AST (identifiers, constants as written, `.` `[` `]` `,` `|`):
+//   (b) the TOKEN sequence of an annotation, defined from the AST (identifiers, constants and not-taken-apart
+//       sub-expressions as written, `.` `[` `]` `,` `|`):
 //       the printed text equals the concatenation of the tokens UP TO BLANKS, and the blanks the printer adds are exactly
 //       one after every ',' and one on each side of every '|'   (lemma_C03_printed_text_is_tokens_up_to_blanks).
 // That the token sequence of the AST is the token sequence of the source minus parentheses, comments and line breaks is
 // the parser's contract — NOT proved here.  What the AST does not keep is lost: parentheses (FACT: nested tuples flatten),
-// the trailing comma of a one-element tuple, and every expression kind outside the six printed ones (-> "Any").
+// the trailing comma of a one-element tuple.  Every expression kind outside the six printed ones is ONE token: its own
+// source slice (/repo cf97e77; before that the three characters `Any`, F-03d), `Any` only when its range is no valid slice.
 
 // ---- (a) constants -----------------------------------------------------------------------------------------------------
 //@tags C03
@@ -53,8 +55,8 @@ pub open spec fn toks(e: AExpr, c: Seq<char>) -> Seq<Seq<char>>
         rustpython_parser::ast::Expr::Subscript(s) => toks(*s.value, c) + seq!["["@] + toks(*s.slice, c) + seq!["]"@],
         rustpython_parser::ast::Expr::Tuple(t) => toks_list(t.elts@, t.elts@.len() as int, c),
         rustpython_parser::ast::Expr::Constant(k) => seq![const_text(k.value, k.range, c)],
-        rustpython_parser::ast::Expr::BinOp(b) => if is_bitor(b.op) { toks(*b.left, c) + seq!["|"@] + toks(*b.right, c) } else { seq![any_text()] },
-        _ => seq![any_text()],
+        rustpython_parser::ast::Expr::BinOp(b) => if is_bitor(b.op) { toks(*b.left, c) + seq!["|"@] + toks(*b.right, c) } else { seq![other_text(e, c)] },
+        _ => seq![other_text(e, c)],
     }
 }
 /// the tokens of the first n elements of a tuple, separated by ","
@@ -149,8 +151,8 @@ pub proof fn lemma_despace_push(s: Seq<char>, ch: char)
     assert(s.push(ch).last() == ch);
 }
 //@tags C03
-/// the printed text and the token sequence agree up to blanks — for EVERY expression (unsupported kinds are the one
-/// token `Any` on both sides)
+/// the printed text and the token sequence agree up to blanks — for EVERY expression (a kind the printer does not take
+/// apart is ONE token on both sides: its source slice, or `Any`)
 pub proof fn lemma_C03_printed_text_is_tokens_up_to_blanks(e: AExpr, c: Seq<char>)
     ensures despace(op_ann_text(e, c)) == despace(flat_t(toks(e, c))),
     decreases e, 0int,
@@ -200,9 +202,9 @@ pub proof fn lemma_C03_printed_text_is_tokens_up_to_blanks(e: AExpr, c: Seq<char
                 lemma_despace_add(l, " | "@);
                 lemma_despace_add(flat_t(tl) + "|"@, flat_t(tr));
                 lemma_despace_add(flat_t(tl), "|"@);
-            } else { lemma_flat_one(any_text()); }
+            } else { lemma_flat_one(other_text(e, c)); }
         }
-        _ => { lemma_flat_one(any_text()); }
+        _ => { lemma_flat_one(other_text(e, c)); }
     }
 }
 pub proof fn lemma_tuple_tokens(es: Seq<AExpr>, n: int, c: Seq<char>)
@@ -249,12 +251,18 @@ pub open spec fn handled_kind(e: AExpr) -> bool {
     }
 }
 //@tags C03
-/// every other expression — wherever it stands inside the annotation — is replaced by the three characters `Any`:
-/// Call `Annotated[int, Gt(0)]`, List `Callable[[int], str]`, Starred `tuple[*Ts]`, UnaryOp `Literal[-1]`, any BinOp
-/// other than `|`, Dict, Set, Lambda, IfExp, BoolOp, Compare, JoinedStr, Slice, Await, NamedExpr, comprehensions, ...
-pub proof fn lemma_C03_other_kinds_print_any(e: AExpr, c: Seq<char>)
+/// every other expression — wherever it stands inside the annotation — is printed AS WRITTEN: the slice of `content` its
+/// own range denotes (Call `Gt(0)`, List `[int]`, Starred `*Ts`, UnaryOp `-1`, any BinOp other than `|`, Dict, Set,
+/// Lambda, IfExp, BoolOp, Compare, JoinedStr, Slice, Await, NamedExpr, comprehensions, ...), blanks, comments and
+/// line breaks inside it included; only when that range is not a valid slice of the text it is handed: `Any`
+/// (F-03d repaired in /repo cf97e77; replay/scenarios/F-03d.json)
+pub proof fn lemma_C03_other_kinds_print_their_source_slice(e: AExpr, c: Seq<char>)
     requires !handled_kind(e),
-    ensures op_ann_text(e, c) == any_text(), toks(e, c) == seq![any_text()],
+    ensures op_ann_text(e, c) == other_text(e, c), toks(e, c) == seq![other_text(e, c)],
+        ({
+            let a = tsv(tr_start(ann_expr_range(e))) as int; let b = tsv(tr_end(ann_expr_range(e))) as int;
+            if a <= b && is_bnd(c, a) && is_bnd(c, b) { op_ann_text(e, c) == c.subrange(cidx(c, a), cidx(c, b)) } else { op_ann_text(e, c) == any_text() }
+        }),
 {}
 pub open spec fn is_list(e: AExpr) -> bool { match e { rustpython_parser::ast::Expr::List(_) => true, _ => false } }
 pub open spec fn sub_value(e: AExpr) -> AExpr { match e { rustpython_parser::ast::Expr::Subscript(s) => *s.value, _ => e } }
@@ -263,21 +271,22 @@ pub open spec fn tuple_elts(e: AExpr) -> Seq<AExpr> { match e { rustpython_parse
 pub open spec fn is_subscript(e: AExpr) -> bool { match e { rustpython_parser::ast::Expr::Subscript(_) => true, _ => false } }
 pub open spec fn is_tuple(e: AExpr) -> bool { match e { rustpython_parser::ast::Expr::Tuple(_) => true, _ => false } }
 //@tags C03
-/// FACT (the property's "return type text" is NOT the source text here): `Callable[[int], str]` — a subscript whose
-/// slice is the tuple (List, x) — prints `Callable[Any, x]`: the parameter list is lost.
-/// replay: `def fa() -> Callable[[int], str]:` records return_type "Callable[Any, str]"
-pub proof fn lemma_C03_FACT_callable_parameter_list_prints_any(e: AExpr, c: Seq<char>)
+/// `Callable[[int], str]` — a subscript whose slice is the tuple (List, x) — prints `Callable[<the list as written>, x]`:
+/// the parameter list is kept verbatim (before /repo cf97e77 it was `Callable[Any, x]`, F-03d).
+/// replay: `def fa() -> Callable[[int], str]:` records return_type "Callable[[int], str]"
+pub proof fn lemma_C03_callable_parameter_list_prints_as_written(e: AExpr, c: Seq<char>)
     requires is_subscript(e), is_tuple(sub_slice(e)), tuple_elts(sub_slice(e)).len() == 2, is_list(tuple_elts(sub_slice(e))[0]),
-    ensures op_ann_text(e, c) == op_ann_text(sub_value(e), c) + "["@ + (any_text() + comma_sep() + op_ann_text(tuple_elts(sub_slice(e))[1], c)) + "]"@,
+    ensures op_ann_text(e, c) == op_ann_text(sub_value(e), c) + "["@
+        + (other_text(tuple_elts(sub_slice(e))[0], c) + comma_sep() + op_ann_text(tuple_elts(sub_slice(e))[1], c)) + "]"@,
 {
     let es = tuple_elts(sub_slice(e));
     lemma_ann_texts(es, 2, c);
     lemma_ann_texts(es, 1, c);
     let ts = ann_texts(es, 2, c);
     assert(ts.drop_last() =~= ann_texts(es, 1, c));
-    lemma_C03_other_kinds_print_any(es[0], c);
-    assert(join_v(ann_texts(es, 1, c), comma_sep()) == any_text());
-    assert(join_v(ts, comma_sep()) == any_text() + comma_sep() + op_ann_text(es[1], c));
+    lemma_C03_other_kinds_print_their_source_slice(es[0], c);
+    assert(join_v(ann_texts(es, 1, c), comma_sep()) == other_text(es[0], c));
+    assert(join_v(ts, comma_sep()) == other_text(es[0], c) + comma_sep() + op_ann_text(es[1], c));
     match e {
         rustpython_parser::ast::Expr::Subscript(s) => {
             match *s.slice {
@@ -326,54 +335,55 @@ pub proof fn lemma_C03_FACT_nested_tuple_is_flattened(outer: Seq<AExpr>, c: Seq<
     assert(join_v(ann_texts(outer, 1, c), comma_sep()) == op_ann_text(outer[0], c));
 }
 //@tags C03
-/// the printed text depends on `content` ONLY through the slices of its constants: an annotation without constants
-/// prints the same whatever text it is handed (so a stale `content` can only garble constants)
-pub proof fn lemma_C03_content_matters_for_constants_only(e: AExpr, c1: Seq<char>, c2: Seq<char>)
-    requires no_constants(e),
+/// the printed text depends on `content` ONLY through the slices of its constants and of the sub-expressions the printer
+/// does not take apart: an annotation built from names, attributes, subscripts, tuples and `|` alone prints the same
+/// whatever text it is handed (so a stale `content` can only garble constants and verbatim parts)
+pub proof fn lemma_C03_content_matters_for_source_slices_only(e: AExpr, c1: Seq<char>, c2: Seq<char>)
+    requires no_source_slices(e),
     ensures op_ann_text(e, c1) == op_ann_text(e, c2),
     decreases e, 0int,
 {
     match e {
-        rustpython_parser::ast::Expr::Attribute(a) => { lemma_C03_content_matters_for_constants_only(*a.value, c1, c2); }
+        rustpython_parser::ast::Expr::Attribute(a) => { lemma_C03_content_matters_for_source_slices_only(*a.value, c1, c2); }
         rustpython_parser::ast::Expr::Subscript(s) => {
-            lemma_C03_content_matters_for_constants_only(*s.value, c1, c2);
-            lemma_C03_content_matters_for_constants_only(*s.slice, c1, c2);
+            lemma_C03_content_matters_for_source_slices_only(*s.value, c1, c2);
+            lemma_C03_content_matters_for_source_slices_only(*s.slice, c1, c2);
         }
-        rustpython_parser::ast::Expr::Tuple(t) => { lemma_no_constants_list(t.elts@, t.elts@.len() as int, c1, c2); }
+        rustpython_parser::ast::Expr::Tuple(t) => { lemma_no_source_slices_list(t.elts@, t.elts@.len() as int, c1, c2); }
         rustpython_parser::ast::Expr::BinOp(b) => {
             if is_bitor(b.op) {
-                lemma_C03_content_matters_for_constants_only(*b.left, c1, c2);
-                lemma_C03_content_matters_for_constants_only(*b.right, c1, c2);
+                lemma_C03_content_matters_for_source_slices_only(*b.left, c1, c2);
+                lemma_C03_content_matters_for_source_slices_only(*b.right, c1, c2);
             }
         }
         _ => {}
     }
 }
-pub open spec fn no_constants(e: AExpr) -> bool
+pub open spec fn no_source_slices(e: AExpr) -> bool
     decreases e, 0int
 {
     match e {
-        rustpython_parser::ast::Expr::Attribute(a) => no_constants(*a.value),
-        rustpython_parser::ast::Expr::Subscript(s) => no_constants(*s.value) && no_constants(*s.slice),
-        rustpython_parser::ast::Expr::Tuple(t) => no_constants_list(t.elts@, t.elts@.len() as int),
-        rustpython_parser::ast::Expr::Constant(_) => false,
-        rustpython_parser::ast::Expr::BinOp(b) => !is_bitor(b.op) || (no_constants(*b.left) && no_constants(*b.right)),
-        _ => true,
+        rustpython_parser::ast::Expr::Attribute(a) => no_source_slices(*a.value),
+        rustpython_parser::ast::Expr::Subscript(s) => no_source_slices(*s.value) && no_source_slices(*s.slice),
+        rustpython_parser::ast::Expr::Tuple(t) => no_source_slices_list(t.elts@, t.elts@.len() as int),
+        rustpython_parser::ast::Expr::Name(_) => true,
+        rustpython_parser::ast::Expr::BinOp(b) => is_bitor(b.op) && no_source_slices(*b.left) && no_source_slices(*b.right),
+        _ => false,   // constants and every kind printed as its source slice
     }
 }
-pub open spec fn no_constants_list(es: Seq<AExpr>, n: int) -> bool
+pub open spec fn no_source_slices_list(es: Seq<AExpr>, n: int) -> bool
     decreases es, n
 {
-    if n <= 0 || n > es.len() { true } else { no_constants_list(es, n - 1) && no_constants(es[n - 1]) }
+    if n <= 0 || n > es.len() { true } else { no_source_slices_list(es, n - 1) && no_source_slices(es[n - 1]) }
 }
-pub proof fn lemma_no_constants_list(es: Seq<AExpr>, n: int, c1: Seq<char>, c2: Seq<char>)
-    requires 0 <= n <= es.len(), no_constants_list(es, n),
+pub proof fn lemma_no_source_slices_list(es: Seq<AExpr>, n: int, c1: Seq<char>, c2: Seq<char>)
+    requires 0 <= n <= es.len(), no_source_slices_list(es, n),
     ensures ann_texts(es, n, c1) == ann_texts(es, n, c2),
     decreases es, n,
 {
     if n > 0 {
-        lemma_no_constants_list(es, n - 1, c1, c2);
-        lemma_C03_content_matters_for_constants_only(es[n - 1], c1, c2);
+        lemma_no_source_slices_list(es, n - 1, c1, c2);
+        lemma_C03_content_matters_for_source_slices_only(es[n - 1], c1, c2);
     }
 }
 
@@ -386,8 +396,13 @@ proof fn canary_constant_prints_debug_text(value: AConstant, range: rustpython_p
 proof fn canary_constant_slice_always_in_range(c: Seq<char>, a: int, b: int)
     ensures get_range_v(c, a, b) is Some,
 {}
-/// "expressions outside the six kinds are printed somehow else than `Any`"
-proof fn canary_list_is_not_any(e: AExpr, c: Seq<char>)
+/// "expressions outside the six kinds are printed as `Any`" (the behaviour before /repo cf97e77, F-03d)
+proof fn canary_list_prints_any(e: AExpr, c: Seq<char>)
+    requires is_list(e),
+    ensures op_ann_text(e, c) == any_text(),
+{}
+/// "expressions outside the six kinds are always printed as written" (the `Any` fallback for an invalid range exists)
+proof fn canary_other_kinds_never_any(e: AExpr, c: Seq<char>)
     requires is_list(e),
     ensures op_ann_text(e, c) != any_text(),
 {}
